@@ -490,3 +490,37 @@ silent('C15', 'roundrobin-commuted',
        lambda p: M.replace_node(p, U, 'RoundRobin_edge_selector', M.assign_to('i'), 'i = (1 + i) % len(edges)', which=1))
 silent('C15', 'machine-assert-message-changed',
        lambda p: M.replace_node(p, N_MAC, 'Machine._get_out_edge_index', lambda n: isinstance(n, ast.Assert), 'assert 0 <= val < len(self.out_edges), "bad index"'))
+
+# ============================================================================================ C16
+fire('C16', 'combiner-pallet-from-last-edge', 'C16.R1', 'Combiner.behaviour',
+     lambda p: M.replace_node(p, N_CMB, 'Combiner.behaviour', M.assign_to('self.pallet_in_process'), 'self.pallet_in_process = self.in_edges[-1].get(get_token)', which=0))
+fire('C16', 'combiner-no-pallet-type-check', 'C16.R1', 'Combiner.behaviour',
+     lambda p: M.replace_node(p, N_CMB, 'Combiner.behaviour', M.if_testing("flow_item_type != 'Pallet'"), 'pass'))
+fire('C16', 'combiner-recipe-from-edge-zero', 'C16.R2', 'Combiner.behaviour',
+     lambda p: M.replace_node(p, N_CMB, 'Combiner.behaviour', lambda n: isinstance(n, ast.For) and 'in_edges' in ast.unparse(n.iter), sub('range(1, len(self.in_edges))', 'range(0, len(self.in_edges))')))
+fire('C16', 'combiner-recipe-one-too-many', 'C16.R2', 'Combiner.behaviour',
+     lambda p: M.replace_node(p, N_CMB, 'Combiner.behaviour', lambda n: isinstance(n, ast.For) and ast.unparse(n.iter) == 'range(qty)', sub('range(qty)', 'range(qty + 1)')))
+fire('C16', 'combiner-recipe-wrong-index', 'C16.R2', 'Combiner.behaviour',
+     lambda p: M.replace_node(p, N_CMB, 'Combiner.behaviour', M.assign_to('qty'), 'qty = self.target_quantity_of_each_item[0]'))
+fire('C16', 'combiner-reserve-on-edge-one', 'C16.R2', 'Combiner.behaviour',
+     lambda p: M.replace_node(p, N_CMB, 'Combiner.behaviour', M.assign_to('edge'), 'edge = self.in_edges[1]'))
+fire('C16', 'combiner-item-not-packed', 'C16.R3', 'Combiner.behaviour',
+     lambda p: M.delete_stmt(p, N_CMB, 'Combiner.behaviour', M.stmt_calling('.add_item')))
+fire('C16', 'combiner-get-from-wrong-edge', 'C16.R3', 'Combiner.behaviour',
+     lambda p: M.replace_node(p, N_CMB, 'Combiner.behaviour', M.assign_to('edge_index'), 'edge_index = reservation_indx[0]'))
+fire('C16', 'combiner-index-list-not-popped', 'C16.R3', 'Combiner.behaviour',
+     lambda p: M.delete_stmt(p, N_CMB, 'Combiner.behaviour', M.stmt_calling('reservation_indx.pop')))
+fire('C16', 'combiner-drain-stops-early', 'C16.R3', 'Combiner.behaviour',
+     lambda p: M.replace_node(p, N_CMB, 'Combiner.behaviour', lambda n: isinstance(n, ast.While) and 'reservation_tokens' in ast.unparse(n.test),
+                              sub('while len(reservation_tokens)>0:', 'while len(reservation_tokens)>1:')))
+fire('C16', 'splitter-pallet-first', 'C16.R4', 'Splitter.worker',
+     lambda p: M.replace_node(p, N_SPL, 'Splitter.worker', M.assign_to('item'), 'item = pallet', which=0))
+fire('C16', 'splitter-pops-from-back', 'C16.R4', 'Splitter.worker',
+     lambda p: M.replace_node(p, N_SPL, 'Splitter.worker', M.assign_to('item'), 'item = pallet.items.pop(-1)', which=0))
+fire('C16', 'splitter-leaves-last-item', 'C16.R4', 'Splitter.worker',
+     lambda p: M.replace_node(p, N_SPL, 'Splitter.worker', lambda n: isinstance(n, ast.While), sub('while len(pallet.items) > 0:', 'while len(pallet.items) > 1:')))
+fire('C16', 'splitter-pallet-not-emitted', 'C16.R4', 'Splitter.worker',
+     lambda p: M.replace_node(p, N_SPL, 'Splitter.worker', M.assign_to('y'), 'y = True', which=1))
+silent('C16', 'combiner-recipe-inline',
+       lambda p: M.replace_node(p, N_CMB, 'Combiner.behaviour', lambda n: isinstance(n, ast.For) and ast.unparse(n.iter) == 'range(qty)',
+                                sub('range(qty)', 'range(self.target_quantity_of_each_item[edge_idx])')))
